@@ -58,6 +58,7 @@ var (
 	opPktShort = MOp{K: "pkt", Pkt: "short"}
 	opPktShAF  = MOp{K: "pkt", Pkt: "shortaf"}
 	opPktBig   = MOp{K: "pkt", Pkt: "big"}
+	opPktStale = MOp{K: "pkt", Pkt: "stalebig"}
 	opPktAF252 = MOp{K: "pkt", Pkt: "af252"}
 	opAddMany  = MOp{K: "addmany", N: 40}
 	opRmMany   = MOp{K: "rmmany", N: 40}
@@ -67,7 +68,7 @@ var muxFullAlpha = []MOp{
 	opAddA, opAddB, opAddAuto, opRmA, opRmB, opRmX, opPcrA, opPcrB, opPcrX, opTables,
 	opDataA1, opDataAfit, opDataAs1, opDataAs2, opDataA3, opDataA17, opDataARAI, opDataAprv, opDataAnor, opDataAhdr,
 	opDataB1, opDataBRAI, opDataAuto, opDataX,
-	opPktNull, opPktAF, opPktShort, opPktBig, opPktAF252, opAddMany, opRmMany,
+	opPktNull, opPktAF, opPktShort, opPktBig, opPktStale, opPktAF252, opAddMany, opRmMany,
 }
 
 // A smaller alphabet for deeper searches.
